@@ -336,7 +336,7 @@ impl FsCommand {
                 target,
                 use_rename,
             } => {
-                let _ = Self::maybe_lock(&source.path, should_lock);
+                let _ = Self::maybe_lock(&source.path, should_lock)?;
                 let len = source.metadata.len();
                 if *use_rename && Self::move_rename(&source.path, target).is_ok() {
                     return Ok(len);
